@@ -192,6 +192,18 @@ impl DecodeFrom for String {
     fn decode_from(decoder: &mut Decoder<impl InputSource>) -> Result<Self> {
         // Decode how many bytes are in this string, and attempt to allocate a vec with the necessary capacity.
         let length = decoder.decode_varuint()?;
+
+        // Make sure the buffer really holds that many bytes before allocating anything: the length comes from
+        // untrusted input, and must not be able to make us allocate more memory than the input itself occupies.
+        let remaining = decoder.remaining();
+        if remaining < length {
+            let error = crate::ErrorKind::UnexpectedEob {
+                requested: length,
+                remaining,
+            };
+            return Err(error.into());
+        }
+
         let mut vector = Vec::new();
         vector.try_reserve_exact(length)?;
 
@@ -217,9 +229,11 @@ where
     /// TODO
     fn decode_from(decoder: &mut Decoder<impl InputSource>) -> Result<Self> {
         // Decode how many elements are in this sequence, and attempt to allocate a vec with the necessary capacity.
-        let length = decoder.decode_varuint()?;
+        // The length comes from untrusted input, so we never pre-allocate for more elements than there are bytes
+        // left in the buffer (every element takes at least one byte); the vector still grows on demand.
+        let length: usize = decoder.decode_varuint()?;
         let mut vector = Vec::new();
-        vector.try_reserve_exact(length)?;
+        vector.try_reserve_exact(core::cmp::min(length, decoder.remaining()))?;
 
         // Decode each element, and push them into the vector, one by one.
         for _ in 0..length {
@@ -243,9 +257,11 @@ where
     /// TODO
     fn decode_from(decoder: &mut Decoder<impl InputSource>) -> Result<Self> {
         // Decode how many entries are in this dictionary, and attempt to allocate a map with the necessary capacity.
-        let length = decoder.decode_varuint()?;
+        // The length comes from untrusted input, so we never pre-allocate for more entries than there are bytes
+        // left in the buffer (every entry takes at least one byte); the map still grows on demand.
+        let length: usize = decoder.decode_varuint()?;
         let mut map = HashMap::new();
-        map.try_reserve(length)?;
+        map.try_reserve(core::cmp::min(length, decoder.remaining()))?;
 
         // Decode 'length'-many entries into the map.
         decode_dictionary_entries!(map, decoder, length);
